@@ -8,6 +8,8 @@ Contracts assumed (part of every claim that uses them):
  * a directory is the set of MemFS names below a prefix;
  * print(..., file=f) is f.write(sep.join(map(str, args)) + end);
  * messages written to stderr have no effect on results; stdout text is collected and returned;
+ * a file that exists only on disk (an unpacked temporary copy) is read lazily through CPython's own
+   I/O stack with a read-ahead of 8 bytes (a reader may fetch its bytes in pieces of any size);
  * every in-memory file is also written to a per-process scratch directory (the current directory while
    a path runs; removed at exit) and reads fall back to it, so misc.gunzip (gzip, tempfile) and any code
    that reaches the file system through another API than the stubbed open() work on real files.
@@ -167,12 +169,27 @@ class _Reader(object):
         return False
 
 
+def _disk_reader(name, encoding):
+    """Text reader for a file that exists only on disk (the unpacked copy that misc.gunzip leaves in the temporary
+    directory): CPython's own FileIO -> BufferedReader -> TextIOWrapper stack, with read-ahead of a few bytes
+    instead of 8 KiB.  The contract assumed is the one the I/O layer gives: a reader may fetch the bytes of its file
+    in pieces of any size, at the time they are asked for -- so a file that is rewritten under the same name while a
+    lazily consumed reader is still open on it shows through, as it would for a real treebank of more than one
+    buffer."""
+    raw = _io.FileIO(name, "r")
+    t = _io.TextIOWrapper(_io.BufferedReader(raw, buffer_size=8), encoding=encoding or "utf-8")
+    t._CHUNK_SIZE = 8
+    return t
+
+
 def mem_open(name, mode="r", encoding=None, **k):
     name = str(name)
     if "w" in mode:
         return _Writer(name, encoding, "b" in mode)
     if name not in MemFS.files:
         raise FileNotFoundError(name)
+    if "b" not in mode and not dict.__contains__(MemFS.files, name):
+        return _disk_reader(name, encoding)
     data = MemFS.files[name]
     if "b" in mode:
         return _io.BytesIO(data)
